@@ -90,3 +90,38 @@ def select(ps, pred):
 BIT_KINDS = {k for k in KINDS if k.startswith("b") and k[1:2].isdigit() or k in ("bi8", "be8")}
 ARRAY_KINDS = {k for k in KINDS if k.startswith(("a_", "d_", "z_", "eof_", "a2d"))}
 PTR_KINDS = {"ptr", "ptrs", "a_ptr_2"}
+
+
+def focused_programs(kinds, seed=0, partners=("u8", "u32", "i24", "char"), tier="quick"):
+    """Every kind of `kinds` alone and paired (both orders) with a few cheap partners; x endian x mode."""
+    ps = []
+    for k in kinds:
+        if k in REJECTED:
+            continue
+        for e in ("<", ">"):
+            for a in (False, True):
+                ps.append(Program([k], e, a))
+    i = 0
+    for k in kinds:
+        if k in REJECTED:
+            continue
+        for q in partners:
+            for seq in ((k, q), (q, k)):
+                if not valid_sequence(seq):
+                    continue
+                for a in (False, True):
+                    if tier == "quick" and a and (k in HEAVY or k in EOF_KINDS):
+                        continue  # expensive aligned combinations: thorough tier only
+                    if tier == "quick" and k in HEAVY and q != partners[0]:
+                        continue
+                    ps.append(Program(list(seq), "<>"[i % 2], a))
+                    i += 1
+    if tier != "quick":
+        for k in kinds:
+            for q in kinds:
+                if k in REJECTED or q in REJECTED or not valid_sequence((k, q)) or (k in HEAVY and q in HEAVY):
+                    continue
+                for a in (False, True):
+                    ps.append(Program([k, q], "<>"[i % 2], a))
+                    i += 1
+    return dedupe(ps)
